@@ -202,10 +202,6 @@ impl ReceiveChannelUnreliable {
             const DISCARD_AFTER: Duration = Duration::from_secs(3);
             if current_time - *last_received >= DISCARD_AFTER {
                 lost_messages.push(message_id);
-            } else {
-                // If the current message is not discard, the next ones will not be discarded
-                // since all the next message were sent after this one.
-                break;
             }
         }
 
